@@ -1,5 +1,7 @@
 #!/usr/bin/env bash
 # seeddetect.sh <seed-out-dir> <seed-name> <check ids...>  — apply a seeded change in /tmp/cw, run the quick tier
+# Needs the scratch worktree first:  git -C /repo worktree add --detach /tmp/cw HEAD   (remove it afterwards:
+#   git -C /repo worktree remove --force /tmp/cw; rm -rf /tmp/vh-alt* /tmp/seedres)
 # of the given checks against it (scripts/check_against.sh), undo the change.
 src="$1"; name="$2"; shift 2
 out=/tmp/seedres/$name; mkdir -p "$out"
